@@ -499,12 +499,14 @@ def rule_d(ctx):
         got = slice_of(v.id) if isinstance(v, ast.Name) else set()
         got = {g for g in got if g.startswith(S + "[")}
         ctx.ob(R, f.qname, f"info['{key}'] derives from {sorted(roots)} of the returned solution", got == roots, f"derives from {sorted(got)}", v if v is not None else f.node)
-    ctx.ob(R, f.qname, "pressure is reshaped in Fortran order", "order='F'" in norm(env.get("pressure", ast.Constant(0))) if not isinstance(env.get("pressure"), tuple) else False,
-           norm(env["pressure"]) if "pressure" in env and not isinstance(env["pressure"], tuple) else "", f.node)
+    pv = entries.get("pressure")
+    pdef = env.get(pv.id) if isinstance(pv, ast.Name) else None
+    ctx.ob(R, f.qname, "pressure is reshaped in Fortran order", pdef is not None and not isinstance(pdef, tuple) and "order='F'" in norm(pdef) and ".reshape(self.grid.shape" in norm(pdef),
+           norm(pdef) if pdef is not None and not isinstance(pdef, tuple) else "", f.node)
     fm = [norm(v) for k, v in env.items() if not isinstance(v, tuple) and norm(v).startswith("np.ravel(")]
     ctx.ob(R, f.qname, "mass difference is flattened in Fortran order", any(x.endswith(", 'F')") for x in fm), str(fm), f.node)
-    md = env.get("mass_diff")
-    ctx.ob(R, f.qname, "mass difference is destination minus source", md is not None and not isinstance(md, tuple) and norm(md) == f"{f.params[2]}.img - {f.params[1]}.img", norm(md) if md is not None and not isinstance(md, tuple) else "", f.node)
+    mds = [v for v in env.values() if not isinstance(v, tuple) and norm(v) == f"{f.params[2]}.img - {f.params[1]}.img"]
+    ctx.ob(R, f.qname, "mass difference is destination minus source", len(mds) == 1, str([norm(v) for v in env.values() if not isinstance(v, tuple) and '.img' in norm(v)][:3]), f.node)
     ctx.floor(R, 1)
 
 
